@@ -144,8 +144,10 @@ public:
     record* entry=pop(data_list);
     if(!entry) //no cached memory available
       return(T());
+    //read the payload before the record becomes available for reuse by a concurrent insert
+    T result=entry->data;
     push(free_list,entry);
-    return(*entry);
+    return(result);
   }
 };
   
